@@ -15,7 +15,7 @@ import time
 
 from . import common
 
-CACHE = os.path.join(common.VERIF, ".cache")
+CACHE = os.environ.get("FCPMC_CACHE") or os.path.join(common.VERIF, ".cache")
 HARNESS = os.path.join(os.path.dirname(os.path.abspath(__file__)), "harness", "cpp_harness.cpp")
 THIRD = os.path.join(common.VERIF, "third_party")
 BASE_FLAGS = ["-std=c++17", "-O0", "-w"]
